@@ -140,33 +140,38 @@ func checkC18Expr(c c18ExprCase) *evid.Fail {
 	if err != nil {
 		return evid.F("well-formed-rejected", "%q rejected by the calculator: %v", c.Text, err)
 	}
-	all := calc.DefaultVariables().GetAll()
-	if len(all) < len(c.Pre) {
-		return evid.F("autovars:previous-entry-lost", "%q: the default collection shrank from %d to %d entries", c.Text, len(c.Pre), len(all))
-	}
-	for i, b := range c.Pre {
-		if all[i].Name() != b.Name || !equalVal(fromVariant(all[i].Value()), b.V) {
-			return evid.F("autovars:previous-entry-changed", "%q: entry %d was %s=%s, now %s=%s", c.Text, i, b.Name, b.V, all[i].Name(), fromVariant(all[i].Value()))
+	checkCreated := func(all []variables.IVariable, how string) *evid.Fail {
+		if len(all) < len(c.Pre) {
+			return evid.F("autovars:previous-entry-lost", "%q%s: the default collection shrank from %d to %d entries", c.Text, how, len(c.Pre), len(all))
 		}
-	}
-	count := map[string]int{}
-	for _, v := range all {
-		count[strings.ToUpper(v.Name())]++
-	}
-	want := map[string]bool{}
-	for _, o := range occ {
-		want[strings.ToUpper(o)] = true
-		if count[strings.ToUpper(o)] != 1 {
-			return evid.F("autovars:entries-per-name", "%q: the default collection has %d entries for variable %q", c.Text, count[strings.ToUpper(o)], o)
+		for i, b := range c.Pre {
+			if all[i].Name() != b.Name || !equalVal(fromVariant(all[i].Value()), b.V) {
+				return evid.F("autovars:previous-entry-changed", "%q%s: entry %d was %s=%s, now %s=%s", c.Text, how, i, b.Name, b.V, all[i].Name(), fromVariant(all[i].Value()))
+			}
 		}
-	}
-	for _, b := range c.Pre {
-		want[strings.ToUpper(b.Name)] = true
-	}
-	for _, v := range all {
-		if !want[strings.ToUpper(v.Name())] {
-			return evid.F("autovars:spurious-entry", "%q: the default collection got an entry %q that is no variable of the expression (functions: %q)", c.Text, v.Name(), funcs)
+		count := map[string]int{}
+		for _, v := range all {
+			count[strings.ToUpper(v.Name())]++
 		}
+		want := map[string]bool{}
+		for _, o := range occ {
+			want[strings.ToUpper(o)] = true
+			if count[strings.ToUpper(o)] != 1 {
+				return evid.F("autovars:entries-per-name", "%q%s: the default collection has %d entries for variable %q", c.Text, how, count[strings.ToUpper(o)], o)
+			}
+		}
+		for _, b := range c.Pre {
+			want[strings.ToUpper(b.Name)] = true
+		}
+		for _, v := range all {
+			if !want[strings.ToUpper(v.Name())] {
+				return evid.F("autovars:spurious-entry", "%q%s: the default collection got an entry %q that is no variable of the expression (functions: %q)", c.Text, how, v.Name(), funcs)
+			}
+		}
+		return nil
+	}
+	if f := checkCreated(calc.DefaultVariables().GetAll(), ""); f != nil {
+		return f
 	}
 	// automatic variables off: a missing variable / function is an error that names it
 	calc2 := calculator.NewExpressionCalculator()
@@ -176,6 +181,21 @@ func checkC18Expr(c c18ExprCase) *evid.Fail {
 	}
 	if calc2.DefaultVariables().Length() != 0 {
 		return evid.F("autovars:created-although-off", "%q: %d default variables created with automatic variables off", c.Text, calc2.DefaultVariables().Length())
+	}
+	// CreateVariables called by hand on a collection of the caller's (the defaults of this calculator stay empty)
+	own := variables.NewVariableCollection()
+	for _, b := range c.Pre {
+		own.Add(variables.NewVariable(b.Name, b.V.toVariant()))
+	}
+	if g := guard(func() { calc2.CreateVariables(own); calc2.CreateVariables(own) }); g != nil {
+		return g
+	}
+	if f := checkCreated(own.GetAll(), " after CreateVariables(own collection) twice"); f != nil {
+		f.Sig += ":own-collection"
+		return f
+	}
+	if calc2.DefaultVariables().Length() != 0 {
+		return evid.F("autovars:created-although-off", "%q: CreateVariables(own collection) put %d entries into the default collection", c.Text, calc2.DefaultVariables().Length())
 	}
 	if len(occ) > 0 {
 		// bind every variable but one; functions all known (harness function collection)
@@ -612,6 +632,23 @@ func checkC18Coll(c c18CollCase) *evid.Fail {
 				for i := range model {
 					model[i].val = -1
 				}
+				if len(model) > 1 {
+					// every cleared variable has a Null of its own: the caller writes into one of them in place
+					k := op.Idx % len(model)
+					vc.Get(k).Value().SetAsInteger(4242)
+					if !variants.Empty.IsNull() {
+						variants.Empty.Clear()
+						bad(step, "clearvalues-hands-out-shared-null", "after ClearValues a write into the value of entry %d changed the library's shared Null constant", k)
+						return
+					}
+					for i := range model {
+						if i != k && !vc.Get(i).Value().IsNull() {
+							bad(step, "clearvalues-shares-one-object", "after ClearValues a write into the value of entry %d shows in entry %d", k, i)
+							return
+						}
+					}
+					vc.Get(k).Value().Clear()
+				}
 				for id, v := range callerValues {
 					if v.Type() != variants.Integer || v.AsInteger() != id {
 						bad(step, "clearvalues-changed-callers-object", "ClearValues changed the value object the caller had added for entry #%d to %s", id, fromVariant(v))
@@ -667,7 +704,8 @@ func init() { regReplay("C18.coll", checkC18Coll) }
 func TestC18_RapidCollections(t *testing.T) {
 	rec := evid.New("C18", "TestC18_RapidCollections", "C18.coll", c18Rule)
 	defer finish(t, rec)
-	names := []string{"a", "A", "b", "B", "ab", "Ab", "AB", "x", "q[", "q{", "r^", "r~", "k@", "k`", "é", "É"}
+	// the last five: spellings of one name whose UTF-8 lengths differ (U+2C65 / U+023A, U+017F / S / s)
+	names := []string{"a", "A", "b", "B", "ab", "Ab", "AB", "x", "q[", "q{", "r^", "r~", "k@", "k`", "é", "É", "ⱥb", "ȺB", "ſx", "SX", "sx"}
 	opKinds := []string{"add", "add", "add", "find", "find", "locate", "remove", "removeByName", "clear", "clearValues"}
 	runRapid(t, pick(30000, 200000), 181818, func(rt *rapid.T) {
 		c := c18CollCase{Kind: rapid.SampledFrom([]string{"variables", "functions"}).Draw(rt, "kind")}
